@@ -35,12 +35,15 @@ RULE = ("histories = construction route x sequence of FSA edits (dense: every "
         "<=30 over <=6 vertices/4 labels, string or integer labels, rename maps "
         "given as dict / list / tuple, insertions one edge at a time or as whole "
         "add_edges batches with repeated / already-present triples and walks, "
-        "ignore_redundant on and off), two automata interleaved, every live object "
+        "ignore_redundant on and off, vertex / label names small ints and literals "
+        "or freshly built equal tuples / big ints / negative ints / run-time strings "
+        "/ floats at every mention), two automata interleaved, every live object "
         "of a history (copy.copy / deepcopy / non-inplace results and their sources) "
         "re-judged after every step; a case is "
         "non-trivial when it performs >=1 edit on a non-empty automaton; distinct "
         "= distinct (route, multiset of op kinds, #vertices, #edges at end) "
-        "signatures and distinct kbmag (states, labels, syntax features)")
+        "signatures and distinct kbmag (states, labels, syntax features incl. the "
+        "form of the accepting field: full / proper interval / explicit subset / empty)")
 ASSUMPTIONS = [
     "insertions that would make the automaton non-deterministic, and "
     "non-injective renames, are out of domain (counted, not judged)",
@@ -81,8 +84,8 @@ _tainted = weakref.WeakSet()      # automata put out of domain by the workload
 _state = {}
 
 
-def view_problems(fsa):
-    ge, oe, ie, gv, ov, iv = fsa_model.lib_views(fsa)
+def view_problems(fsa, views=None):
+    ge, oe, ie, gv, ov, iv = views or fsa_model.lib_views(fsa)
     probs = []
     for name, lst in (("label", ge), ("outgoing", oe), ("incoming", ie)):
         seen = set()
@@ -315,7 +318,7 @@ def dense_ops():
 
 DENSE_OPS = dense_ops()
 ROUTES = ["empty", "label_dict", "label_dict_hidden", "target_dict",
-          "deepcopy", "free", "int_labels", "copy"]
+          "deepcopy", "free", "int_labels", "copy", "fresh_names"]
 DENSE_TOTAL = len(ROUTES) * len(DENSE_OPS) ** 3
 
 
@@ -345,6 +348,13 @@ def build_route(route, rng=None, universe=None):
         d = {0: {"a": 1, "b": 2}, 1: {"a": 1}, 2: {"a": 0, "b": 2}}
         return (copy.copy(fsamod.FSA(d, start_vertices=[0])),
                 fsa_model.Model.from_label_dict(d, [0]))
+    if route == "fresh_names":
+        # tuple-named vertices, labels assembled at run time: the dense ops
+        # name them by freshly built equal objects (DENSE_NAMING)
+        nm = DENSE_NAMING[route]
+        d = {0: {"a": 1, "b": 2}, 1: {"a": 2, "b": 1}, 2: {"a": 0}}
+        return (fsamod.FSA(nm.graph(d), start_vertices=[nm.v(0)]),
+                fsa_model.Model.from_label_dict(nm.graph(d), [nm.v(0)]))
     if route == "free":
         F = fsamod.free_automaton("a")
         gens = ["a", "A"]
@@ -353,10 +363,90 @@ def build_route(route, rng=None, universe=None):
     raise ValueError(route)
 
 
-def random_route(rng, int_labels=False, shallow=False):
+VERTEX_SCHEMES = ["tuple", "bigint", "negint", "built-str", "float", "mixed"]
+LABEL_SCHEMES = [None, "built-str", "tuple"]
+BIGINT_BASE = 260
+
+
+class Naming:
+    """Vertex (and label) names that are NOT cached singletons, built afresh
+    at every mention.  Histories are generated over the abstract universe
+    0..n-1 / 'a','b',...; a Naming turns each abstract vertex i into a name of
+    a given class -- tuple (i, 'v'), int > 256, int < -5, string assembled at
+    run time, float, or a mix -- and constructs a *new, equal* object every
+    time an operation names the vertex (route dictionaries: keys and targets
+    separately; delete_vertex / delete_vertices / add_edges / add_vertices /
+    has_edge / edge_labels / rename maps).  The library may therefore never
+    rely on the object it is handed being the object it stored (seeded change
+    C09-r5-1: delete_vertex selecting stale labels with `head is vertex`;
+    small ints and interned short strings hide that)."""
+
+    def __init__(self, vertices, labels=None):
+        self.vertices, self.labels = vertices, labels
+
+    def __str__(self):
+        return "names:%s/%s" % (self.vertices, self.labels or "plain-labels")
+
+    def v(self, i, scheme=None):
+        scheme = scheme or self.vertices
+        if not isinstance(i, int) or isinstance(i, bool):
+            return i
+        if scheme == "tuple":
+            return (int(i), "".join(["v"]))
+        if scheme == "bigint":
+            return BIGINT_BASE + i
+        if scheme == "negint":
+            return -10 - i
+        if scheme == "built-str":
+            return "".join(["state-", str(i)])
+        if scheme == "float":
+            return i + 0.5
+        return self.v(i, ["tuple", "bigint", "built-str", "negint"][i % 4])
+
+    def l(self, x):
+        if self.labels is None or not isinstance(x, str):
+            return x
+        if self.labels == "built-str":
+            return "".join([x, "'"])
+        return (str(x), len(x))
+
+    def graph(self, d):
+        return {self.v(v): {self.l(l): self.v(w) for l, w in nb.items()}
+                for v, nb in d.items()}
+
+    def op(self, op):
+        """the same operation with every vertex / label freshly named."""
+        k, v, l = op[0], self.v, self.l
+        if k in ("add_vertices", "delete_vertices"):
+            return (k, [v(x) for x in op[1]])
+        if k == "add_edge":
+            return (k, v(op[1]), v(op[2]), l(op[3]))
+        if k == "add_edges_elist":
+            return (k, v(op[1]), v(op[2]), [l(x) for x in op[3]])
+        if k == "add_edges_batch":
+            tr = [(v(t), v(h), [l(x) for x in lab] if op[2] else l(lab))
+                  for (t, h, lab) in op[1]]
+            return (k, tr) + tuple(op[2:])
+        if k == "add_edges_walk":
+            return (k, v(op[1]), [l(x) for x in op[2]], [v(x) for x in op[3]], op[4])
+        if k == "delete_vertex":
+            return (k, v(op[1]))
+        if k == "query":
+            return (k, v(op[1]), v(op[2]))
+        if k == "rename":
+            return (k, {l(a): l(b) for a, b in op[1].items()}, op[2])
+        return op
+
+
+DENSE_NAMING = {"fresh_names": Naming("tuple", "built-str")}
+
+
+def random_route(rng, int_labels=False, shallow=False, naming=None):
     """int_labels: the alphabet is 0..k-1 (as the Coxeter automaton generator
     produces) instead of strings; shallow: the copy route uses copy.copy
-    instead of copy.deepcopy.  (Same random draws in every variant.)"""
+    instead of copy.deepcopy; naming: vertex / label names of a non-singleton
+    class (the returned `labels` stay abstract: run_history(naming=...)
+    names them).  (Same random draws in every variant.)"""
     from geometry_tools.automata import fsa as fsamod
     nv = int(rng.integers(1, 7))
     labels = ([0, 1, 2, 3] if int_labels else ["a", "b", "c", "ab"])[:int(rng.integers(1, 5))]
@@ -370,31 +460,54 @@ def random_route(rng, int_labels=False, shallow=False):
                 # targets may be 'hidden' (not a key) for the label route
                 hi = nv + 1 if kind != "target" else nv
                 d[v][l] = int(rng.integers(0, hi))
-    model = fsa_model.Model.from_label_dict(d, [0])
+    s0 = 0
+    if naming is not None:
+        if kind == "gap" and naming.vertices != "bigint":
+            kind = "label"          # kbmag states are integers
+        if kind != "gap":
+            d, s0 = naming.graph(d), naming.v(0)
+    model = fsa_model.Model.from_label_dict(d, [s0])
     if kind == "label":
-        return "rand_label", fsamod.FSA(d, start_vertices=[0]), model, labels
+        return "rand_label", fsamod.FSA(d, start_vertices=[s0]), model, labels
     if kind == "deepcopy":
         if shallow:
-            return "rand_copy", copy.copy(fsamod.FSA(d, start_vertices=[0])), model, labels
-        return "rand_deepcopy", copy.deepcopy(fsamod.FSA(d, start_vertices=[0])), model, labels
+            return "rand_copy", copy.copy(fsamod.FSA(d, start_vertices=[s0])), model, labels
+        return "rand_deepcopy", copy.deepcopy(fsamod.FSA(d, start_vertices=[s0])), model, labels
     if kind == "gap":
-        # through the kbmag table route: vertices 1..n, 0 = fail
+        # through the kbmag table route: vertices 1..n, 0 = fail.  Every
+        # second record names a random subset of the states as `accepting`
+        # (the word-acceptor convention [1..n] is only one possibility): the
+        # automaton is the written table whatever that field says
+        # (seeded change C09-r5-3)
         n = nv
         table = [[int(rng.integers(0, n + 1)) if rng.random() < 0.6 else 0
                   for _ in labels] for _ in range(n)]
-        rec = {"x": {"isFSA": "true", "alphabet": {"names": labels},
-                     "table": {"transitions": table}, "initial": [1]}}
-        dd = {i + 1: {l: t for l, t in zip(labels, row) if t != 0}
+        base = 0
+        names = labels
+        if naming is not None:
+            # a record with several hundred states: the states the history
+            # works on are BIGINT_BASE+1.., ints that are not cached singletons
+            base = BIGINT_BASE
+            table = [[0] * len(labels) for _ in range(base)] + \
+                [[t + base if t else 0 for t in row] for row in table]
+            names = [naming.l(l) for l in labels]
+        nst = len(table)
+        acc = [q for q in range(1, nst + 1) if (q * 7 + n) % 3 != 0] if n % 2 else \
+            list(range(1, nst + 1))
+        rec = {"x": {"isFSA": "true", "alphabet": {"names": names},
+                     "table": {"transitions": table}, "initial": [base + 1],
+                     "accepting": acc}}
+        dd = {i + 1: {l: t for l, t in zip(names, row) if t != 0}
               for i, row in enumerate(table)}
         return ("rand_gap", fsamod._from_gap_record(rec),
-                fsa_model.Model.from_label_dict(dd, [1]), labels)
+                fsa_model.Model.from_label_dict(dd, [base + 1]), labels)
     td = {}
-    for v in verts:
+    for v, nb in d.items():
         td[v] = {}
-        for l, w in d[v].items():
+        for l, w in nb.items():
             td[v].setdefault(w, []).append(l)
-    return ("rand_target", fsamod.FSA(td, start_vertices=[0], graph_dict=False),
-            fsa_model.Model.from_target_dict(td, [0]), labels)
+    return ("rand_target", fsamod.FSA(td, start_vertices=[s0], graph_dict=False),
+            fsa_model.Model.from_target_dict(td, [s0]), labels)
 
 
 def resolve_batch(M, triples, elist, ignore_redundant, picks=()):
@@ -586,7 +699,7 @@ def compare(run, F, M, step, history, role=""):
         return mon.fail("model/%svertices/after:%s" % (role, opk),
                         "vertex set %r != model %r" % (sorted(gv, key=repr),
                                                        sorted(M.vertices, key=repr)), case())
-    probs = view_problems(F)
+    probs = view_problems(F, (ge, oe, ie, gv, ov, iv))
     if probs:
         return mon.fail("model/%s%s/after:%s" % (role, probs[0][0], opk), probs[0][1], case())
     mon.ok()
@@ -610,9 +723,10 @@ class World:
     and later edits through the other object are not part of its history."""
     MAX_LIVE = 4
 
-    def __init__(self, F, M):
+    def __init__(self, F, M, naming=None):
         self.objs = [[F, M]]
         self.cur = 0
+        self.naming = naming
 
     @property
     def F(self):
@@ -632,6 +746,8 @@ class World:
         F, M = self.objs[self.cur]
         group = [e for e in self.objs if e[1] is M]
         before = M.copy()
+        if self.naming is not None:
+            op = self.naming.op(op)     # fresh, equal name objects at every mention
         F2, M2, status = apply_op(op, F, M)
         if status != "ok":
             return status
@@ -659,16 +775,21 @@ class World:
         return True
 
 
-def run_history(run, route_name, F, M, ops, F2=None, M2=None, ops2=()):
+def run_history(run, route_name, F, M, ops, F2=None, M2=None, ops2=(),
+                naming=None, naming2=None):
     """Apply ops to (F, M); optionally interleave ops2 on a second,
-    independent automaton (cross-instance leakage shows as a model mismatch)."""
+    independent automaton (cross-instance leakage shows as a model mismatch).
+    With a Naming the (abstract) ops are given freshly built vertex / label
+    names at every step."""
     hist = [list(o) for o in ops]
+    if naming is not None:
+        route_name = "%s/%s" % (route_name, naming)
     _state["history"] = {"route": route_name, "ops": hist}
     run.current_case = _state["history"]
-    W = World(F, M)
+    W = World(F, M, naming)
     if not W.check(run, -1, hist):
         return
-    W2 = World(F2, M2) if F2 is not None else None
+    W2 = World(F2, M2, naming2) if F2 is not None else None
     hist2 = [list(o) for o in ops2]
     nontrivial = False
     kinds = []
@@ -713,7 +834,7 @@ def wl_dense(run, rng, idx):
         ops.append(DENSE_OPS[code % n])
         code //= n
     F, M = build_route(ROUTES[r])
-    run_history(run, ROUTES[r], F, M, ops)
+    run_history(run, ROUTES[r], F, M, ops, naming=DENSE_NAMING.get(ROUTES[r]))
     if idx < 3:
         run.sample({"route": ROUTES[r], "ops": ops})
 
@@ -729,7 +850,7 @@ def wl_dense_block(run, rng, idx):
             ops.append(DENSE_OPS[code % n])
             code //= n
         F, M = build_route(ROUTES[r])
-        run_history(run, ROUTES[r], F, M, ops)
+        run_history(run, ROUTES[r], F, M, ops, naming=DENSE_NAMING.get(ROUTES[r]))
     run.extra["dense_histories"] = run.extra.get("dense_histories", 0) + \
         (min((idx + 1) * 256, DENSE_TOTAL) - idx * 256)
 
@@ -826,13 +947,15 @@ def wl_batches(run, rng, idx):
     other edits; string and integer labels, every route (C09-r4-2)."""
     style = BATCH_STYLES[idx % 4]
     ign = (idx // 4) % 3 != 2
-    name, F, M, labels = random_route(rng, int_labels=idx % 5 == 4, shallow=idx % 7 == 6)
+    nm = pick_naming(idx // 3, idx % 5 == 4) if idx % 3 == 1 else None
+    name, F, M, labels = random_route(rng, int_labels=idx % 5 == 4, shallow=idx % 7 == 6,
+                                      naming=nm)
     ops = []
     for _ in range(int(rng.integers(1, 5))):
         ops.append(random_batch(rng, labels, 7, style, ign))
         ops.extend(random_ops(rng, labels, int(rng.integers(0, 3))))
     run_history(run, name + "/batch:%s:%s" % (style, "filtered" if ign else "unfiltered"),
-                F, M, ops)
+                F, M, ops, naming=nm)
     if idx < 2:
         run.sample({"route": name, "ops": ops[:6]})
 
@@ -865,16 +988,52 @@ def wl_random(run, rng, idx):
     # every third history is over integer labels (sequence rename maps are in
     # domain there), every fifth starts from a shallow copy
     ints = idx % 3 == 1
-    name, F, M, labels = random_route(rng, int_labels=ints, shallow=idx % 5 == 2)
-    name2, F2, M2, labels2 = random_route(rng, int_labels=ints and idx % 2 == 0)
+    # every fourth over vertex names that are not cached singletons
+    nm = pick_naming(idx // 4, ints) if idx % 4 == 3 else None
+    nm2 = pick_naming(idx // 8 + 2, ints and idx % 2 == 0) if idx % 8 == 5 else None
+    name, F, M, labels = random_route(rng, int_labels=ints, shallow=idx % 5 == 2, naming=nm)
+    name2, F2, M2, labels2 = random_route(rng, int_labels=ints and idx % 2 == 0, naming=nm2)
     if ints:
         name += ":int-labels"
     depth = int(rng.integers(1, 31))
     ops = random_ops(rng, labels, depth)
     ops2 = random_ops(rng, labels2, depth)
-    run_history(run, name, F, M, ops, F2, M2, ops2)
+    run_history(run, name, F, M, ops, F2, M2, ops2, naming=nm, naming2=nm2)
     if idx < 3:
         run.sample({"route": name, "ops": ops[:8]})
+
+
+def pick_naming(k, int_labels=False):
+    """the k-th (vertex scheme, label scheme) combination."""
+    vs = VERTEX_SCHEMES[k % len(VERTEX_SCHEMES)]
+    ls = None if int_labels else LABEL_SCHEMES[(k // len(VERTEX_SCHEMES)) % len(LABEL_SCHEMES)]
+    return Naming(vs, ls)
+
+
+def wl_fresh_names(run, rng, idx):
+    """histories over vertex / label names that are equal-but-not-identical
+    objects at every mention: vertex class idx % 6 (tuple, int > 256,
+    int < -5, run-time string, float, mixed), label class (idx // 6) % 3,
+    every route (incl. kbmag records with several hundred states for the
+    big-int class), operations weighted towards those that NAME a vertex --
+    delete_vertex / delete_vertices / recurrent of vertices with incoming
+    edges, add_edges between existing vertices, adjacency queries
+    (seeded change C09-r5-1)."""
+    ints = idx % 11 == 7
+    nm = pick_naming(idx, ints)
+    name, F, M, labels = random_route(rng, int_labels=ints, shallow=idx % 5 == 4, naming=nm)
+    nv = 7
+    ops = []
+    for o in random_ops(rng, labels, int(rng.integers(3, 16)), nv=nv):
+        ops.append(o)
+        r = rng.random()
+        if r < 0.25:
+            ops.append(("delete_vertex", int(rng.integers(0, nv))))
+        elif r < 0.35:
+            ops.append(("query", int(rng.integers(0, nv)), int(rng.integers(0, nv))))
+    run_history(run, name, F, M, ops, naming=nm)
+    if idx < 2:
+        run.sample({"route": name, "naming": str(nm), "ops": ops[:8]})
 
 
 def wl_relabel(run, rng, idx):
@@ -933,7 +1092,8 @@ def wl_copy_edit(run, rng, idx):
     (`switch`), and after every step each object must be coherent and equal
     the model of its own history (seeded change C09-r3-2)."""
     ints = idx % 7 == 3
-    name, F, M, labels = random_route(rng, int_labels=ints, shallow=idx % 4 == 1)
+    nm = pick_naming(idx // 5, ints) if idx % 5 == 2 else None
+    name, F, M, labels = random_route(rng, int_labels=ints, shallow=idx % 4 == 1, naming=nm)
     copier = COPIERS[idx % len(COPIERS)]
     nv = 8          # one more than any route builds: edges to brand-new vertices
     pre = random_ops(rng, labels, int(rng.integers(0, 3)), nv=nv)
@@ -942,7 +1102,7 @@ def wl_copy_edit(run, rng, idx):
         ops.append(o)
         if rng.random() < 0.2:
             ops.append(("switch",))
-    run_history(run, name + "/copy-edit:" + copier[0], F, M, ops)
+    run_history(run, name + "/copy-edit:" + copier[0], F, M, ops, naming=nm)
     if idx < 2:
         run.sample({"route": name, "ops": ops[:8]})
 
@@ -1062,6 +1222,30 @@ def gen_record_text(rng):
     if rng.random() < 0.3:
         init_txt = "[%d..%d]" % (init, init)
         feats.add("interval-initial")
+    # the `accepting` field: the word-acceptor convention [1..n], or any other
+    # subset of the states in interval / explicit / empty syntax.  The loaded
+    # automaton is the written transition table whatever this field says
+    # (seeded change C09-r5-3: non-accepting states treated as failure states)
+    r = rng.random()
+    if r < 0.4 or n == 1 and r < 0.8:
+        acc_txt = "[1..%d]" % n
+    elif r < 0.55:
+        lo = int(rng.integers(1, n + 1))
+        hi = int(rng.integers(lo, n + 1))
+        if (lo, hi) == (1, n):
+            hi = n - 1 if n > 1 else n
+        acc_txt = "[%d..%d]" % (lo, hi) if hi >= lo else "[]"
+        feats.add("accepting-proper-interval")
+    elif r < 0.8:
+        acc = [q for q in range(1, n + 1) if rng.random() < 0.5]
+        acc_txt = "[" + ",".join(ws() + str(q) + ws() for q in acc) + "]"
+        feats.add("accepting-explicit-subset" if len(acc) < n else "accepting-explicit-all")
+    elif r < 0.9:
+        acc_txt = "[%s]" % ws()
+        feats.add("accepting-empty")
+    else:
+        acc_txt = "[" + ",".join(str(q) for q in range(1, n + 1)) + "]"
+        feats.add("accepting-explicit-all")
     fields = [
         "isFSA := true",
         "alphabet := rec(%stype := \"identifiers\",%ssize := %d,%sformat := \"dense\",%snames := [%s]%s)"
@@ -1069,7 +1253,7 @@ def gen_record_text(rng):
         "states := rec(type := \"simple\", size := %d)" % n,
         "flags := [\"DFA\",\"minimized\",\"BFS\",\"accessible\",\"trim\"]",
         "initial := %s" % init_txt,
-        "accepting := [1..%d]" % n,
+        "accepting := %s" % acc_txt,
         "table := rec(%sformat := \"dense deterministic\",%snumTransitions := %d,%stransitions := [%s]%s)"
         % (ws(), ws(), sum(1 for r in table for x in r if x), ws(),
            ("," + ws()).join(fmt_row(r) for r in table), ws()),
@@ -1250,6 +1434,7 @@ WORKLOADS = [
     Workload("dense-depth3-all", wl_dense_block, quick=0,
              thorough=(DENSE_TOTAL + 255) // 256),
     Workload("random-histories", wl_random, quick=400, thorough=6000),
+    Workload("fresh-vertex-names", wl_fresh_names, quick=300, thorough=4000),
     Workload("edge-batches", wl_batches, quick=240, thorough=3000),
     Workload("relabel-sequence-maps", wl_relabel, quick=180, thorough=2500),
     Workload("copy-then-edit", wl_copy_edit, quick=240, thorough=3000),
